@@ -165,8 +165,36 @@ def install_stream(rec, final_name='stream.ndjson'):
             return ['D']
         return ['R']
     rec.classify = classify
+
+    def _unlink(p_):
+        i = rec.op('unlink', cls_of(p_))
+        r = real_os.unlink(p_)
+        rec.after(i)
+        return r
+
+    def _copy(src, dst, *a, **k):
+        # a publish step that COPIES the finished file under its final name (not what stream.py does today; Checkpoint.tla has no such
+        # action, so a run that does it is not one of its behaviours): create, two chunks, close - it can be interrupted in between
+        i = rec.op('copy_create', cls_of(dst))
+        out = builtins.open(dst, 'wb')
+        rec.after(i)
+        data = builtins.open(src, 'rb').read()
+        half = len(data) // 2
+        for part in (data[:half], data[half:]):
+            i = rec.op('copy_chunk', cls_of(dst))
+            out.write(part)
+            out.flush()
+            rec.after(i)
+        i = rec.op('copy_close', cls_of(dst))
+        out.close()
+        rec.after(i)
+        return dst
     m.open = _open
-    m.os = ModProxy(real_os, {'rename': _rename})
+    m.os = ModProxy(real_os, {'rename': _rename, 'replace': _rename, 'unlink': _unlink, 'remove': _unlink})
+    import shutil as real_shutil
+    for modname in ('shutil',):
+        if hasattr(m, modname):
+            setattr(m, modname, ModProxy(real_shutil, {'copy': _copy, 'copyfile': _copy, 'copy2': _copy, 'move': _rename}))
 
 
 # ---------------------------------------------------------------------------
